@@ -110,7 +110,7 @@ def chain_matrix_case(ctx, idx, rng):
 
 def automaton_case(ctx, idx, rng):
     nn = int(rng.integers(2, 7))
-    L = int(rng.integers(1, 8)) if idx % 10 else int(rng.integers(8, 11))
+    L = int(rng.integers(1, 8))
     t0, t1 = (0, 1) if rng.random() < 0.8 else (1, 0)
     if rng.random() < 0.1:
         t1 = t0          # both terminals the same state (pure loops)
